@@ -18,6 +18,18 @@ CLAIMED = {
    technique="bounded exhaustive enumeration of all ordered value pairs of U with a relational (metamorphic) oracle on the real interpreter",
    text="For all 34^2 ordered pairs of the universe ~30 one-line programs per pair are executed on the real interpreter and only relations between their results are judged: symmetry of is, negation forms, converse orderings with error<=>error, antisymmetry vs equality when an ordering exists, logic vs observed truthiness, compound assignment vs its expansion for all eight compound spellings, build-k/knock-k round trips; the same laws on the Val API. No expected values are involved, so an asymmetry already present in the code cannot hide in a copied table.",
    note="Trusted: nothing beyond the harness; the reference interpreter is used only as a resource guard (string repetition by 1e21 is not executed). Values outside U are not covered."),
+ "C04": dict(level="exploration", design="§2 C04",
+   technique="bounded exhaustive enumeration of all control-flow skeleton programs up to a node bound (plus all single rich deviations), executed on the real interpreter and compared with a reference interpreter",
+   text="All 889 265 (quick, <=7 nodes) / 8.5 M (thorough, <=8 nodes) programs built from nested if/else, while, until, break, continue and uniquely numbered say statements, with a core alphabet that guarantees termination, and every single deviation to a rich alphabet (conditions of every value kind, other guards, long spellings, an erroring statement, an empty then-block, blocks closed by end of input) on all programs of <=5/6 nodes, are run in both builds; the printed marker trace and the outcome must equal those of the reference interpreter run on the same parsed tree. The shape the property singles out (break in if in loop in loop) is inside the quick bound.",
+   note="Trusted: reference interpreter (refmodel/interp.rs). Not covered: programs beyond the node bound; two simultaneous rich deviations."),
+ "C05": dict(level="exploration", design="§2 C05",
+   technique="bounded exhaustive enumeration of function-body x caller statement sequences over a scope/pronoun alphabet, executed on the real interpreter and compared with a reference interpreter under two scoping disciplines",
+   text="Every program made of a function whose body is any sequence of 1..2 (thorough 1..3) statements from a 22-statement alphabet (locals, parameter and global updates, returns at every nesting depth, recursion, nested calls, pronoun reads/writes, array parameter mutation) and any 1..2 (..3) caller statements from a 21-statement alphabet (calls in every position, wrong arity, calling a variable or an unknown name, leaked locals, block locals, shadowing, side-effecting arguments, arrays by value, pronouns after blocks and calls) is executed in both builds and compared with the reference interpreter. The reference runs under lexical and dynamic scoping; programs where they differ, and pronoun uses whose referent depends on unspecified evaluation order, are skipped and counted.",
+   note="Trusted: reference interpreter. Open cells skipped: U-scope, U-pronoun, U-stray (DESIGN §4). Not covered: names/values outside the alphabets, longer bodies."),
+ "C06": dict(level="model_checking", design="§2 C06",
+   technique="explicit-state breadth-first model checking of copy/mutate histories (sharing-aware canonical state key) with per-transition replay on the real interpreter",
+   text="Breadth-first search from the empty state over 58 actions on three variables (index writes with numeric and dictionary keys, nested writes, rock, roll, copies by assignment / element / argument / result, scalar coercion, error actions, observation actions), to depth 4 (quick) / 5 (thorough). States are deduplicated on values plus the partition of array occurrences that may still share storage, so the one history that exposes missing copy-on-write is never merged away. Every transition is validated by replaying history + action + a language-level observation of all three variables (every index 0..len, every dictionary key, one level of nesting) on the real interpreter in both builds against the reference.",
+   note="Trusted: reference interpreter and the canonicalisation argument (DESIGN §2 C06). Depth-bounded: the frontier does not close under the caps (sequence length <=4, nesting <=2); states beyond the caps are validated but not expanded."),
 }
 NOT_YET = "check under construction in this session (not yet claimed)"
 ids=[json.loads(l)["id"] for l in open("/verif/properties.jsonl")]
